@@ -86,7 +86,7 @@ const (
 	maxInt = math.MaxInt64
 )
 
-// pool named in the property (0, ±1, min/max int, ±0.0, 0.5, 1e308, '', '0',
+// pool named in the property (0, ±1, min/max int, ±0.0, 0.5, 1e308, ”, '0',
 // 'a', true, false, null) + numeric strings + shift/overflow boundaries +
 // non-finite floats + arrays/objects for the no-crash clause.
 func boundaryPool() []V {
